@@ -191,6 +191,16 @@ extern "C" void *new_fft_table(int32_t nn) {
     }
     return reps;
 }
+extern "C" void delete_fft_table(void *tables) {
+    FFT_PRECOMP *reps = (FFT_PRECOMP *) tables;
+    free(reps->buf);
+    delete reps;
+}
+extern "C" void delete_ifft_table(void *tables) {
+    IFFT_PRECOMP *reps = (IFFT_PRECOMP *) tables;
+    free(reps->buf);
+    delete reps;
+}
 extern "C" double *fft_table_get_buffer(const void *tables) {
     FFT_PRECOMP *reps = (FFT_PRECOMP *) tables;
     return reps->aligned_data;
